@@ -132,6 +132,8 @@ def rules(ctx):
     ctx.rule('R01.8', "convert_solution reads exactly the labels 0..n-1 through the reverse mapping", floor=4)
     ctx.rule('R01.9', "(deg, lam, pairs) are forwarded to their namesakes", floor=8)
     ctx.rule('R01.10', "every substitution of a pair by an ancilla is accompanied by the gadget penalty", floor=1)
+    from .C04 import conversion_defaults
+    conversion_defaults(ctx, 'R01.9')
     ctx.rule('R01.11', "non-reducing shortcuts are taken only under a guard implying the degree bound", floor=2)
 
     fn, W = _find_reduction(ctx)
